@@ -411,7 +411,14 @@ def run(ctx):
                                   'self.sparse_templates.data[%s[-1], :, :]' % vvar_], single[0].value)
             dst_good = Pat().any(['data[%s, :, :]' % cvar_, 'data[%s]' % cvar_, 'data[%s, ...]' % cvar_], single[0].targets[0]) or \
                 (isinstance(single[0].targets[0].value, ast.Name) and Pat().any(['ANY[%s, :, :]' % cvar_, 'ANY[%s]' % cvar_, 'ANY[%s, ...]' % cvar_], single[0].targets[0]))
-            vocab_ = {cvar_, vvar_, 'self', 'data'} | {unparse(single[0].targets[0].value)}
+            # per-cluster buffer: `w[...] = template` followed by `data[clust] = w` in the same loop is the same copy
+            tbase = single[0].targets[0].value
+            if not dst_good and isinstance(tbase, ast.Name) and Pat().any(['%s[...]' % tbase.id, '%s[:]' % tbase.id, '%s[:, :]' % tbase.id], single[0].targets[0]):
+                later = [a_ for a_ in ast.walk(loopc[0]) if isinstance(a_, ast.Assign) and isinstance(a_.targets[0], ast.Subscript) and isinstance(a_.value, ast.Name) and a_.value.id == tbase.id and
+                         Pat().any(['ANY[%s, :, :]' % cvar_, 'ANY[%s]' % cvar_, 'ANY[%s, ...]' % cvar_], a_.targets[0])]
+                dst_good = bool(later)
+            buffer_store = isinstance(tbase, ast.Name) and tbase.id != 'data' and not dst_good
+            vocab_ = {cvar_, vvar_, 'self', 'data'} | ({unparse(single[0].targets[0].value)} if not buffer_store else set())
             same_vocab = {n.id for n in ast.walk(single[0]) if isinstance(n, ast.Name)} <= vocab_
             if cond_ok and src_good and dst_good:
                 ctx.holds('C08.A2', cw, 'a cluster stemming from exactly one template copies that template unchanged', single[0])
